@@ -992,3 +992,5 @@ M("c15-thrown-message-from-local", "C15", "cola/libvpsc/solve_VPSC.cpp",
 M("c15-boundary-edges-freed-in-run-only", "C15", "cola/libcola/cola.cpp",
   "        for(vector<straightener::Edge*>::iterator e=cedges.begin();\n                e!=cedges.end();++e) {\n            delete *e;\n        }\n        cedges.clear();\n    } \n}",
   "        cedges.clear();\n    } \n}", mention=["ITERATION-EDGES-FREED", "runOnce"])
+M("c11-neutral-pin-by-vertex-via-local", "C11", "cola/libavoid/connend.cpp",
+  "        if (currPin->m_vertex == pinVert)\n        {\n            usePin(currPin);", "        VertInf *candidate = currPin->m_vertex;\n        if (candidate == pinVert)\n        {\n            usePin(currPin);", expect="silent")
